@@ -42,6 +42,7 @@ func runSeeds(t *testing.T, property, check string, st *Stats) {
 				continue
 			}
 			c.Note = ""
+			c.Restore()
 			cases = append(cases, &c)
 		}
 	}
